@@ -74,3 +74,22 @@ func TestRegressLeakyBucketQuietAfterClose(t *testing.T) {
 		}
 	}
 }
+
+// TestRegressSecondCloseDoesNotPanic: Close, then Close again, for the members whose second Close panicked with "close of closed channel".
+func TestRegressSecondCloseDoesNotPanic(t *testing.T) {
+	for _, name := range []string{"pacing", "cc-noop-pacer", "cc-leaky-bucket"} {
+		m := kit.NewMember(name, interval)
+		ic, err := m.Factory.NewInterceptor("x")
+		if err != nil {
+			t.Fatal(err)
+		}
+		ic.BindRTCPWriter(&kit.RTCPSink{})
+		ic.BindLocalStream(kit.LocalInfo(0x6001, twccID, true, true), &kit.RTPSink{})
+		for i := 1; i <= 2; i++ {
+			if o := kit.Guard(0, func() { _ = ic.Close() }); !o.OK() {
+				kit.WriteReplay("TestRegressSecondCloseDoesNotPanic", []byte(`{"member":"`+name+`","ops":["BindRTCPWriter","BindLocalStream 0x6001","Close","Close"]}`))
+				t.Fatalf("%s: Close call %d: %s", name, i, o)
+			}
+		}
+	}
+}
